@@ -3,8 +3,8 @@
    Print Assumptions follows every theorem.   *)
 
 From Coq Require Import List NArith Bool Sorting Permutation.
-From Ice Require Import Base Spec Enumerator.
-From IceProofs Require MergeAlgebra_Proofs Docnums_Proofs Sort_Proofs Enumerator_Proofs.
+From Ice Require Import Base Spec Chunk Postings Enumerator IntCoder Run MergePostings.
+From IceProofs Require MergeAlgebra_Proofs Docnums_Proofs Sort_Proofs Enumerator_Proofs MergePostings_Proofs.
 Import ListNotations.
 Open Scope N_scope.
 
@@ -121,3 +121,173 @@ Theorem empty_key_zero_value_refuted :
     ~ In (Enumerator_Proofs.ka, 0%nat, 9) (enum_run_new (S (total_pairs its)) its).
 Proof. exact @Enumerator_Proofs.empty_key_zero_value_refuted. Qed.
 Print Assumptions empty_key_zero_value_refuted.
+
+(* R-merge for postings: the statement-by-statement model of the merger's per-field loop (enumerator, prepareNewTerm, reading every input through the iterator model with its deletions as exclusion, renumbering, remapping location field ids, finishTerm with the 1-hit decision) produces, for ANY admissible encoding of the inputs, exactly the dictionary, the encoded postings lists and the statistics of the merge specification, and never fails *)
+Theorem merge_field_correct :
+    forall (cm : N) (f : bytes) (insE : list MergePostings_Proofs.InE) (foc : ASeg -> bool),
+    (forall (A : ASeg) (dr : list N) (e : bytes -> EncPL),
+    In (A, dr, e) insE ->
+    MergePostings_Proofs.wf_seg A /\
+    (forall t : bytes, In t (o_terms A f) -> MergePostings_Proofs.admissible_enc A f t (e t))) ->
+    (forall (A : ASeg) (dr : list N) (e : bytes -> EncPL),
+    In (A, dr, e) insE -> foc A = false -> known_field A f = false) ->
+    In f (as_fields (fst (merge_spec (MergePostings_Proofs.ins_of insE)))) ->
+    valid_mode cm = true ->
+    0 < o_count (fst (merge_spec (MergePostings_Proofs.ins_of insE))) ->
+    o_count (fst (merge_spec (MergePostings_Proofs.ins_of insE))) < two32 ->
+    exists r : FieldResult,
+    merge_field cm (o_count (fst (merge_spec (MergePostings_Proofs.ins_of insE))))
+    (as_fields (fst (merge_spec (MergePostings_Proofs.ins_of insE))))
+    (MergePostings_Proofs.merge_acts f insE foc) = Ok r /\
+    fr_dict r =
+    map (fun t : bytes => (t, encode_term (MergePostings_Proofs.mslot cm insE) f t))
+    (o_terms (fst (merge_spec (MergePostings_Proofs.ins_of insE))) f) /\
+    map MergePostings_Proofs.log_view (fr_log r) =
+    map
+    (fun t : bytes =>
+    (t, lenN (o_postings (fst (merge_spec (MergePostings_Proofs.ins_of insE))) f t),
+    opt_default 0
+    (getChunkSize cm (lenN (o_postings (fst (merge_spec (MergePostings_Proofs.ins_of insE))) f t))
+    (o_count (fst (merge_spec (MergePostings_Proofs.ins_of insE))))),
+    map (to_eposting (as_fields (fst (merge_spec (MergePostings_Proofs.ins_of insE)))))
+    (o_postings (fst (merge_spec (MergePostings_Proofs.ins_of insE))) f t)))
+    (o_terms (fst (merge_spec (MergePostings_Proofs.ins_of insE))) f) /\
+    fr_docs r = fst (merged_stats (as_docs (fst (merge_spec (MergePostings_Proofs.ins_of insE)))) f) /\
+    fr_freqs r = snd (merged_stats (as_docs (fst (merge_spec (MergePostings_Proofs.ins_of insE)))) f).
+Proof. exact @MergePostings_Proofs.merge_field_correct. Qed.
+Print Assumptions merge_field_correct.
+
+Theorem merge_term_postings :
+    forall (cm : N) (f : bytes) (insE : list MergePostings_Proofs.InE) (foc : ASeg -> bool),
+    (forall (A : ASeg) (dr : list N) (e : bytes -> EncPL),
+    In (A, dr, e) insE ->
+    MergePostings_Proofs.wf_seg A /\
+    (forall t : bytes, In t (o_terms A f) -> MergePostings_Proofs.admissible_enc A f t (e t))) ->
+    (forall (A : ASeg) (dr : list N) (e : bytes -> EncPL),
+    In (A, dr, e) insE -> foc A = false -> known_field A f = false) ->
+    In f (as_fields (fst (merge_spec (MergePostings_Proofs.ins_of insE)))) ->
+    valid_mode cm = true ->
+    0 < o_count (fst (merge_spec (MergePostings_Proofs.ins_of insE))) ->
+    o_count (fst (merge_spec (MergePostings_Proofs.ins_of insE))) < two32 ->
+    forall r : FieldResult,
+    merge_field cm (o_count (fst (merge_spec (MergePostings_Proofs.ins_of insE))))
+    (as_fields (fst (merge_spec (MergePostings_Proofs.ins_of insE))))
+    (MergePostings_Proofs.merge_acts f insE foc) = Ok r ->
+    map (fun l : TermLog => (tl_term l, tl_ps l)) (fr_log r) =
+    map
+    (fun t : bytes =>
+    (t,
+    map (to_eposting (as_fields (fst (merge_spec (MergePostings_Proofs.ins_of insE)))))
+    (o_postings (fst (merge_spec (MergePostings_Proofs.ins_of insE))) f t)))
+    (o_terms (fst (merge_spec (MergePostings_Proofs.ins_of insE))) f).
+Proof. exact @MergePostings_Proofs.merge_term_postings. Qed.
+Print Assumptions merge_term_postings.
+
+(* terms whose documents were all deleted disappear *)
+Theorem merge_terms :
+    forall (cm : N) (f : bytes) (insE : list MergePostings_Proofs.InE) (foc : ASeg -> bool),
+    (forall (A : ASeg) (dr : list N) (e : bytes -> EncPL),
+    In (A, dr, e) insE ->
+    MergePostings_Proofs.wf_seg A /\
+    (forall t : bytes, In t (o_terms A f) -> MergePostings_Proofs.admissible_enc A f t (e t))) ->
+    (forall (A : ASeg) (dr : list N) (e : bytes -> EncPL),
+    In (A, dr, e) insE -> foc A = false -> known_field A f = false) ->
+    In f (as_fields (fst (merge_spec (MergePostings_Proofs.ins_of insE)))) ->
+    valid_mode cm = true ->
+    0 < o_count (fst (merge_spec (MergePostings_Proofs.ins_of insE))) ->
+    o_count (fst (merge_spec (MergePostings_Proofs.ins_of insE))) < two32 ->
+    forall r : FieldResult,
+    merge_field cm (o_count (fst (merge_spec (MergePostings_Proofs.ins_of insE))))
+    (as_fields (fst (merge_spec (MergePostings_Proofs.ins_of insE))))
+    (MergePostings_Proofs.merge_acts f insE foc) = Ok r ->
+    map fst (fr_dict r) = o_terms (fst (merge_spec (MergePostings_Proofs.ins_of insE))) f.
+Proof. exact @MergePostings_Proofs.merge_terms. Qed.
+Print Assumptions merge_terms.
+
+(* including which terms are 1-hit encoded and the chunk size the reader will recompute *)
+Theorem merge_encoding :
+    forall (cm : N) (f : bytes) (insE : list MergePostings_Proofs.InE) (foc : ASeg -> bool),
+    (forall (A : ASeg) (dr : list N) (e : bytes -> EncPL),
+    In (A, dr, e) insE ->
+    MergePostings_Proofs.wf_seg A /\
+    (forall t : bytes, In t (o_terms A f) -> MergePostings_Proofs.admissible_enc A f t (e t))) ->
+    (forall (A : ASeg) (dr : list N) (e : bytes -> EncPL),
+    In (A, dr, e) insE -> foc A = false -> known_field A f = false) ->
+    In f (as_fields (fst (merge_spec (MergePostings_Proofs.ins_of insE)))) ->
+    valid_mode cm = true ->
+    0 < o_count (fst (merge_spec (MergePostings_Proofs.ins_of insE))) ->
+    o_count (fst (merge_spec (MergePostings_Proofs.ins_of insE))) < two32 ->
+    forall r : FieldResult,
+    merge_field cm (o_count (fst (merge_spec (MergePostings_Proofs.ins_of insE))))
+    (as_fields (fst (merge_spec (MergePostings_Proofs.ins_of insE))))
+    (MergePostings_Proofs.merge_acts f insE foc) = Ok r ->
+    fr_dict r =
+    map (fun t : bytes => (t, encode_term (MergePostings_Proofs.mslot cm insE) f t))
+    (o_terms (fst (merge_spec (MergePostings_Proofs.ins_of insE))) f) /\
+    map (fun l : TermLog => (tl_term l, tl_card l, tl_cs l)) (fr_log r) =
+    map
+    (fun t : bytes =>
+    (t, lenN (o_postings (fst (merge_spec (MergePostings_Proofs.ins_of insE))) f t),
+    opt_default 0
+    (getChunkSize cm (lenN (o_postings (fst (merge_spec (MergePostings_Proofs.ins_of insE))) f t))
+    (o_count (fst (merge_spec (MergePostings_Proofs.ins_of insE)))))))
+    (o_terms (fst (merge_spec (MergePostings_Proofs.ins_of insE))) f).
+Proof. exact @MergePostings_Proofs.merge_encoding. Qed.
+Print Assumptions merge_encoding.
+
+(* never an error or panic (in particular never 'see hit with dropped docNum') *)
+Theorem merge_field_total :
+    forall (cm : N) (f : bytes) (insE : list MergePostings_Proofs.InE) (foc : ASeg -> bool),
+    (forall (A : ASeg) (dr : list N) (e : bytes -> EncPL),
+    In (A, dr, e) insE ->
+    MergePostings_Proofs.wf_seg A /\
+    (forall t : bytes, In t (o_terms A f) -> MergePostings_Proofs.admissible_enc A f t (e t))) ->
+    (forall (A : ASeg) (dr : list N) (e : bytes -> EncPL),
+    In (A, dr, e) insE -> foc A = false -> known_field A f = false) ->
+    In f (as_fields (fst (merge_spec (MergePostings_Proofs.ins_of insE)))) ->
+    valid_mode cm = true ->
+    0 < o_count (fst (merge_spec (MergePostings_Proofs.ins_of insE))) ->
+    o_count (fst (merge_spec (MergePostings_Proofs.ins_of insE))) < two32 ->
+    exists r : FieldResult,
+    merge_field cm (o_count (fst (merge_spec (MergePostings_Proofs.ins_of insE))))
+    (as_fields (fst (merge_spec (MergePostings_Proofs.ins_of insE))))
+    (MergePostings_Proofs.merge_acts f insE foc) = Ok r.
+Proof. exact @MergePostings_Proofs.merge_field_total. Qed.
+Print Assumptions merge_field_total.
+
+(* non-vacuity: the hypotheses hold for a concrete two-input merge with a deletion, a 1-hit term and a term that is not 1-hit encoded *)
+Example ex_theorem_applies :
+    exists r : FieldResult,
+    merge_field 1025 (o_count MergePostings_Proofs.ex_M) (as_fields MergePostings_Proofs.ex_M)
+    MergePostings_Proofs.ex_acts = Ok r /\
+    fr_dict r =
+    map
+    (fun t : bytes =>
+    (t,
+    encode_term (MergePostings_Proofs.mslot 1025 MergePostings_Proofs.ex_insE)
+    MergePostings_Proofs.exf t)) (o_terms MergePostings_Proofs.ex_M MergePostings_Proofs.exf) /\
+    fr_docs r = fst (merged_stats (as_docs MergePostings_Proofs.ex_M) MergePostings_Proofs.exf) /\
+    fr_freqs r = snd (merged_stats (as_docs MergePostings_Proofs.ex_M) MergePostings_Proofs.exf).
+Proof. exact @MergePostings_Proofs.ex_theorem_applies. Qed.
+Print Assumptions ex_theorem_applies.
+
+Example ex_merge_field_spec :
+    match
+    merge_field 1025 (o_count MergePostings_Proofs.ex_M) (as_fields MergePostings_Proofs.ex_M)
+    MergePostings_Proofs.ex_acts
+    with
+    | Ok r =>
+    fr_dict r =
+    map
+    (fun t : bytes =>
+    (t,
+    encode_term (MergePostings_Proofs.mslot 1025 MergePostings_Proofs.ex_insE)
+    MergePostings_Proofs.exf t)) (o_terms MergePostings_Proofs.ex_M MergePostings_Proofs.exf) /\
+    (fr_docs r, fr_freqs r) =
+    merged_stats (as_docs MergePostings_Proofs.ex_M) MergePostings_Proofs.exf /\
+    merge_no1hit (MergePostings_Proofs.ins_of MergePostings_Proofs.ex_insE) MergePostings_Proofs.ex_M =
+    [(MergePostings_Proofs.exf, MergePostings_Proofs.exty)]
+    | _ => False
+    end.
+Proof. exact @MergePostings_Proofs.ex_merge_field_spec. Qed.
+Print Assumptions ex_merge_field_spec.
